@@ -389,6 +389,8 @@ class Doc(object):
         r = self.r
         nid = self.uid('node') if r.random() < 0.9 else None
         n = self.el('node', id=nid, name=r.choice([None, None, 'nm']))
+        if r.random() < 0.15:
+            n.append(self.asset())       # a node may carry asset information of its own (imported sub-assets do)
         for _ in range(r.randint(0, 3)):
             n.append(self.transform())
         for _ in range(r.randint(0, 4)):
